@@ -177,5 +177,5 @@ func genC03(rt *rapid.T) Case {
 }
 
 func TestC03Votes(t *testing.T) {
-	common.Check(t, "C03", "TestC03Votes", 1500, 100000, genC03, c03Prop)
+	common.Check(t, "C03", "TestC03Votes", 8000, 160000, genC03, c03Prop)
 }
